@@ -218,3 +218,26 @@ def run(F, ctx):
     if not loops:
         raise CheckError("read_all has no loop (anchor changed)")
     ctx.end_rule()
+
+    # ---- DUR-6
+    ctx.rule("R-DUR-6", "WAL replay: every entry read from the log is put back into its shard's buffer (no data-dependent skip)", floor=1)
+    rw = F.fn(FP + "::replay_wal")
+    loops = dur.loop_blocks(rw)
+    pushes = [c for c in rw.normal_calls() if c.bb in loops and re.search(r"Vec::<storage::persist::batch::Update>::push$", c.static_args or "")]
+    nx = [c for c in rw.normal_calls() if c.bb in loops and re.search(r"Iterator>::next$", c.static_args or "")]
+    if not pushes or not nx:
+        raise CheckError("replay_wal: loop over entries / buffer push not found (anchor moved)")
+    ok = True
+    wit = None
+    for n_ in nx:
+        res = rw.derive({n_.dst["l"]}, through_calls=False)
+        for (sb, sadt, spl, smm, sother) in rw.enum_switches("std::option::Option"):
+            if spl["l"] in res and "Some" in smm:
+                leak = rw.path(smm["Some"], [n_.bb], stop={c.bb for c in pushes})
+                if leak is not None:
+                    ok = False
+                    wit = leak
+    ctx.site("replay_wal: every iteration reaches the buffer push", rw.where(), ok=ok)
+    if not ok:
+        ctx.violation(FP + "::replay_wal:R-DUR-6:entry-skipped", "replay_wal can skip an entry it read from the log (an iteration reaches the next entry without pushing the update into the shard's buffer): an acknowledged write that is only in the WAL - e.g. one that arrived, out of timestamp order, after a flush - is dropped at recovery", rw.where(wit[0] if wit else None), detail="witness blocks %s" % wit)
+    ctx.end_rule()
